@@ -304,7 +304,28 @@ def prove(assumptions, goal, tr=None, timeout_ms=None):
                    want_model=False, use_cvc5=False)
     if r0.status == 'unsat':
       return Result('proved', None, time.time() - t0, 'z3-linear-relaxation')
+    # second cheap attempt: only the hypotheses that share a symbol with the goal (sound: fewer
+    # hypotheses can only weaken the claim); unstable nonlinear queries often close at once
+    sl = _slice(list(assumptions), goal, 1)
+    if len(sl) < len(assumptions):
+      t0 = time.time()
+      rs = check_sat(sl + [~goal], Translator(), min(timeout_ms or Z3_TIMEOUT_MS, 5000), want_model=False, use_cvc5=False)
+      if rs.status == 'unsat':
+        return Result('proved', None, time.time() - t0, 'z3-sliced-hypotheses',
+                      '%d of %d hypotheses (depth 1)' % (len(sl), len(assumptions)))
   r = check_sat(list(assumptions) + [~goal], tr, timeout_ms, use_cvc5=False)
+  if r.status == 'unknown':
+    # hypothesis slicing: fewer hypotheses can only weaken the claim, so `unsat` stays a proof.
+    # Hypotheses reachable from the goal through shared symbols in 1, then 2 steps.
+    t1 = time.time()
+    for depth in (1, 2):
+      sl = _slice(list(assumptions), goal, depth)
+      if len(sl) == len(assumptions):
+        break
+      rs = check_sat(sl + [~goal], Translator(), min(timeout_ms or Z3_TIMEOUT_MS, 8000), want_model=False, use_cvc5=False)
+      if rs.status == 'unsat':
+        return Result('proved', None, r.time + (time.time() - t1), 'z3-sliced-hypotheses',
+                      '%d of %d hypotheses (depth %d)' % (len(sl), len(assumptions), depth))
   if r.status == 'unknown':
     # slow queries are unstable ones: a second attempt with fresh term numbering and another
     # seed often closes at once; cvc5 gets the query after that
@@ -324,6 +345,24 @@ def prove(assumptions, goal, tr=None, timeout_ms=None):
   if r.status == 'sat':
     return Result('refuted', r.model, r.time, r.backend, r.detail)
   return Result('unknown', None, r.time, r.backend, r.detail)
+
+
+def _symbols(b):
+  return frozenset(i for i in E.atoms_closure([], [b]) if E.ATOMS[i].kind in ('var', 'fn'))
+
+
+def _slice(assumptions, goal, depth):
+  syms = [(a, _symbols(a)) for a in assumptions]
+  reach = set(_symbols(goal))
+  keep = [False] * len(syms)
+  for _ in range(depth):
+    new = set()
+    for k, (a, sy) in enumerate(syms):
+      if not keep[k] and (sy & reach or not sy):
+        keep[k] = True
+        new |= sy
+    reach |= new
+  return [a for k, (a, _) in enumerate(syms) if keep[k]]
 
 
 def _nonlinear(bools):
